@@ -33,7 +33,10 @@ ASSUMPTIONS = [
 ]
 BOUND = {
     "quick": "complete decision table for both drivers; heptapeptide x 3 pKa "
-    "vectors x 15-point pH chain x 6 force fields",
+    "vectors x 29-point pH chain x 6 force fields; pairs of same-type "
+    "residues with pKa values straddling the pH (7 groups x 6 force fields "
+    "x {default, --noopt}); ASP/GLU tables with --noopt and with an "
+    "asymmetric carboxylate",
     "thorough": "quick + real PROPKA on 1AJJ, 1BX8, cterm_hid, 1A1P for pH "
     "0..14 step 2 x 6 force fields",
 }
@@ -167,15 +170,26 @@ def run_table_case(case):
     x = case["x"]
     res = {"evals": 0, "violations": [], "events": {}, "nontrivial": []}
     atoms, info = corpus.build_host({"x": x, "pos": pos})
-    text = build.pdb_text(atoms)
     tinfo = next(i for i in info if i["target"])
+    if case.get("asym"):
+        # asymmetric carboxylate: C-OD2 / C-OE2 0.08 A longer than the other
+        # C-O bond (the optimiser takes a separate branch for such groups)
+        far, near = (("OD2", "CG") if x == "ASP" else ("OE2", "CD"))
+        o = next(a for a in atoms if a["res_seq"] == tinfo["res_seq"]
+                 and a["name"] == far)
+        c = next(a for a in atoms if a["res_seq"] == tinfo["res_seq"]
+                 and a["name"] == near)
+        u = o["xyz"] - c["xyz"]
+        o["xyz"] = o["xyz"] + 0.08 * u / (u @ u) ** 0.5
+    text = build.pdb_text(atoms)
     seen = set()
     totals = {}
     for pka in PKAS:
         for ph in PHS:
             rows = propka_rows(tinfo, group, pka)
             opts = [f"--ff={ff}", "--titration-state-method=propka",
-                    f"--with-ph={ph}", "--keep-chain"]
+                    f"--with-ph={ph}", "--keep-chain"] + list(
+                        case.get("opts", []))
             if driver == "main":
                 with pipeline.inject_pka(rows):
                     r = pipeline.run(text, opts)
@@ -203,6 +217,9 @@ def run_table_case(case):
             res["evals"] += 1
             side = "pH<pKa" if ph < pka else ("pH==pKa" if ph == pka else "pH>pKa")
             cell = f"C06/{driver}/{ff}/{group}@{pos}"
+            if case.get("opts") or case.get("asym"):
+                cell += "[" + "+".join(list(case.get("opts", []))
+                                       + (["asym"] if case.get("asym") else [])) + "]"
             if not r.ok:
                 sig = f"{cell}/{side}/run-fails:{r.exc[0]}"
                 if sig not in seen:
@@ -324,6 +341,55 @@ def run_hepta_case(case):
     return res
 
 
+def run_pair_case(case):
+    """Two internal residues of the same titratable type whose pKa values
+    straddle the pH: they must end in different states (a state change of
+    one residue must not leak into the other)."""
+    ff, g = case["ff"], case["group"]
+    seq = ["ALA", g, "ALA", g, "ALA"]
+    atoms = build.build_peptide(seq)
+    text = build.pdb_text(atoms)
+    res = {"evals": 0, "violations": [], "events": {}, "nontrivial": []}
+    seen = set()
+    for pk_a, pk_b in ((4.0, 10.0), (10.0, 4.0)):
+        rows = propka_rows({"res_seq": 2, "input": g}, g, pk_a) + \
+            propka_rows({"res_seq": 4, "input": g}, g, pk_b)
+        with pipeline.inject_pka(rows):
+            r = pipeline.run(text, [f"--ff={ff}", "--keep-chain",
+                                    "--titration-state-method=propka",
+                                    "--with-ph=7"] + list(case.get("opts", [])))
+        res["evals"] += 1
+        tag = f"C06/pair/{ff}/{g}" + ("[--noopt]" if case.get("opts") else "")
+        if not r.ok:
+            sig = f"{tag}/run-fails:{r.exc[0]}"
+            if sig not in seen:
+                seen.add(sig)
+                res["violations"].append({
+                    "sig": sig, "detail": {"pkas": [pk_a, pk_b],
+                                           "error": str(r.exc_obj.__cause__
+                                                        or r.exc_obj)[:160]}})
+            continue
+        missed = {id(a) for a in (r.missed or [])}
+        for seqno, pk in ((2, pk_a), (4, pk_b)):
+            resd = find_residue(r.bm, seqno)
+            names = [a.name for a in resd.atoms]
+            n_missed = sum(1 for a in resd.atoms if id(a) in missed)
+            rq = sum(a.ffcharge for a in resd.atoms
+                     if a.ffcharge is not None and id(a) not in missed)
+            verdict = judge(ff, g, g, "mid", 7.0, pk, names, n_missed,
+                            r.warnings, f"{g} {seqno}", charge=rq)
+            res["nontrivial"].append(f"pair:{ff}:{g}:{pk_a}:{seqno}")
+            if verdict is not None:
+                which = "first" if seqno == 2 else "second"
+                sig = f"{tag}/{which}-of-two/{verdict[0]}"
+                if sig not in seen:
+                    seen.add(sig)
+                    res["violations"].append({
+                        "sig": sig, "detail": dict(verdict[1], pkas=[pk_a, pk_b],
+                                                   residue=seqno)})
+    return res
+
+
 GROUP_OF = {"ASP": "ASP", "GLU": "GLU", "HIS": "HIS", "CYS": "CYS",
             "TYR": "TYR", "LYS": "LYS", "ARG": "ARG"}
 
@@ -411,6 +477,8 @@ def run_case(case):
         return run_table_case(case)
     if case["mode"] == "hepta":
         return run_hepta_case(case)
+    if case["mode"] == "pair":
+        return run_pair_case(case)
     return run_real_case(case)
 
 
@@ -431,6 +499,18 @@ def enumerate_cases(tier, seed):
     for ff in corpus.FFS:
         for vec in VECTORS:
             cases.append({"mode": "hepta", "ff": ff, "vector": vec})
+        for g in HEPTA:
+            cases.append({"mode": "pair", "ff": ff, "group": g})
+            cases.append({"mode": "pair", "ff": ff, "group": g,
+                          "opts": ["--noopt"]})
+        # acids without optimisation / with an asymmetric carboxylate
+        for g in ("ASP", "GLU"):
+            for pos in corpus.POSITIONS:
+                cases.append({"mode": "table", "driver": "main", "ff": ff,
+                              "group": g, "pos": pos, "x": g,
+                              "opts": ["--noopt"]})
+                cases.append({"mode": "table", "driver": "main", "ff": ff,
+                              "group": g, "pos": pos, "x": g, "asym": True})
     if tier == "thorough":
         for f in ("1AJJ.pdb", "1BX8.pdb", "cterm_hid.pdb", "1A1P.pdb"):
             for ff in corpus.FFS:
